@@ -151,10 +151,14 @@ NAME_STYLES = [
 ]
 
 
+# which style a case with n atoms gets (the structured generators with several correction sets per layer work over 5-6 atoms)
+STYLE_OF_N = {1: 0, 2: 1, 3: 3, 4: 2, 5: 3, 6: 0, 7: 1, 8: 2, 9: 3}
+
+
 def names_for(n: int):
     """atom names of a case with n atoms; the style depends on n only, so that every place (and every process) that names the
     atoms of a case uses the same names: plain letters, names sharing prefixes, names that look like keywords, or a letter followed by a small index"""
-    style = NAME_STYLES[n % 4] if os.environ.get("VERIF_PLAIN_NAMES") != "1" else None
+    style = NAME_STYLES[STYLE_OF_N.get(n, n % 4)] if os.environ.get("VERIF_PLAIN_NAMES") != "1" else None
     if style is None or n > len(style):
         base = "abcdefghijklmnopqrstuvwxyz"
         return [base[i] if i < 26 else f"x{i}" for i in range(n)]
@@ -505,6 +509,57 @@ def gen_infchain_case(rng: random.Random, n: int):
             queries.append((rng.choice([y, ("!", y), far]), ("|", far, rng.choice(o))))
         elif r < 0.85:
             queries.append((rng.choice([y, ("!", y)]), rng.choice(xs)))
+        else:
+            queries.append(gen_cond(rng, n, 2, 0.0))
+    return conds, queries
+
+
+def gen_subsumed_case(rng: random.Random, n: int):
+    """a conditional subsumed by another on the same guard ((b|a) next to (b,c|a), or (c|a) next to (c|a,b)): every world falsifying
+    the weaker one falsifies the stronger one too, so one of them may carry impact 0 in a c-representation and the two share clauses of
+    their material implications; queries compare two complete worlds (or small sets of worlds) under the guard; n >= 3;
+    returns (conds, queries)"""
+    atoms = list(range(n))
+    rng.shuffle(atoms)
+    a, b, c = [("a", x) for x in atoms[:3]]
+    lit = lambda x: x if rng.random() < 0.8 else ("!", x)      # noqa: E731
+    lb, lc = lit(b), lit(c)
+    guard = a if rng.random() < 0.8 else ("T",)
+    r = rng.random()
+    if r < 0.5:
+        conds = [(lb, guard), (("&", lb, lc), guard)]
+    elif r < 0.8:
+        conds = [(lc, guard), (lc, ("&", guard, lb) if guard != ("T",) else lb)]
+    else:
+        conds = [(lb, guard), (("&", lb, lc), guard), (lc, guard)]
+    if n >= 4 and rng.random() < 0.5:
+        d = ("a", atoms[3])
+        conds.append(rng.choice([(d, lc), (lit(d), guard), (("!", lb), ("&", guard, d) if guard != ("T",) else d)]))
+    if rng.random() < 0.25:
+        conds.append(gen_cond(rng, n, 1, 0.0))
+    rng.shuffle(conds)
+
+    def world_fm(w):
+        f = None
+        for i, bit in enumerate(w):
+            x = ("a", i) if bit else ("!", ("a", i))
+            f = x if f is None else ("&", f, x)
+        return f
+
+    W = [w for w in all_worlds(n) if guard == ("T",) or f_eval(guard, w)]
+    queries = []
+    for _ in range(6):
+        r = rng.random()
+        if r < 0.55 and len(W) >= 2:
+            w1, w2 = rng.sample(W, 2)
+            queries.append((world_fm(w1), ("|", world_fm(w1), world_fm(w2))))
+        elif r < 0.8 and len(W) >= 3:
+            ws = rng.sample(W, 3)
+            queries.append((("|", world_fm(ws[0]), world_fm(ws[1])), ("|", ("|", world_fm(ws[0]), world_fm(ws[1])), world_fm(ws[2]))))
+        elif r < 0.9:
+            x, y = rng.sample([b, c] + ([("a", atoms[3])] if n >= 4 else []), 2)
+            g2 = ("&", guard, ("|", ("&", x, ("!", y)), ("&", ("!", x), y))) if guard != ("T",) else ("|", ("&", x, ("!", y)), ("&", ("!", x), y))
+            queries.append((rng.choice([x, y, ("!", x)]), g2))
         else:
             queries.append(gen_cond(rng, n, 2, 0.0))
     return conds, queries
